@@ -120,5 +120,17 @@ def run(ctx):
                                   {"cfg": r.cfg, "fault_at_user_call": kf, "resumed_from": bad.payloads[-1]["iteration"]})
             else:
                 ctx.violation(f"resume-raises:after-fault:{r2.error[0]}", f"resuming after a fault at user call {kf} raised {r2.error[:2]}", {"cfg": r.cfg})
+            # the in-process retry: the SAME sampler object (it already holds the interrupted run's history) continues from the
+            # pickled payload its callback kept; what it then records is the resumed run, not a mixture with the aborted iteration
+            if bad.payloads[-1]["bytes"] is not None:
+                r3 = sr.do_run(r.cfg, resume_from=bad.payloads[-1]["bytes"], vid0=20000, retry_on=bad)
+                ctx.count(("retried", r.cfg["seed"], kf), True, kind="resumed/same-sampler-object-after-fault")
+                rep3 = {"cfg": r.cfg, "fault_at_user_call": kf, "resumed_from": bad.payloads[-1]["iteration"], "same_sampler_object": True}
+                if r3.error is None:
+                    check_history(ctx, r3, "retried-on-the-same-sampler", resumed_from=bad.payloads[-1]["iteration"])
+                    if len(r3.history.beta) != len(r.history.beta):
+                        ctx.violation("resumed-iterations:same-sampler", f"history of the retry on the same sampler has {len(r3.history.beta)} iterations, uninterrupted {len(r.history.beta)}", rep3)
+                else:
+                    ctx.violation(f"resume-raises:same-sampler:{r3.error[0]}", f"retrying on the same sampler after a fault at user call {kf} raised {r3.error[:2]}", rep3)
     ctx.extra["resumed_histories_checked"] = nres
     ctx.extra["resumed_after_fault_checked"] = nlive
